@@ -590,6 +590,26 @@ def api_translates():
                     bad.append(f"{n.targets[0].id} = {ast.unparse(n.value)[:80]}")
         out.append((f"scan/api_translates_every_path/{fn}.elementwise", not bad and bool(scope_ok),
                     f"not produced by translate applied to each path: {bad}" if bad else f"{len(scope_ok)} translated values"))
+    # the other direction: the paths that get_info receives from the director (labels relative to the director's
+    # directory) are handed to the step only after translate_back applied to each of them -- with the default work
+    # directory, i.e. resolved through STEPUP_ROOT / HERE like every other path of the step
+    _, gi = extract.find_def(apimod_path, "get_info")
+    seen = {}
+    for n in ast.walk(gi):
+        if isinstance(n, ast.Assign) and len(n.targets) == 1 and isinstance(n.targets[0], ast.Attribute) \
+                and n.targets[0].attr in ("inp", "out", "vol"):
+            attr, v, good = n.targets[0].attr, n.value, False
+            while isinstance(v, ast.Call) and ast.unparse(v.func) in ("sorted", "list", "tuple") and len(v.args) == 1 and not v.keywords:
+                v = v.args[0]
+            if isinstance(v, (ast.GeneratorExp, ast.ListComp)) and len(v.generators) == 1:
+                g = v.generators[0]
+                good = (isinstance(v.elt, ast.Call) and ast.unparse(v.elt.func) == "translate_back" and len(v.elt.args) == 1
+                        and not v.elt.keywords and isinstance(g.target, ast.Name) and ast.unparse(v.elt.args[0]) == g.target.id
+                        and not g.ifs and isinstance(g.iter, ast.Attribute) and g.iter.attr == attr
+                        and ast.unparse(g.iter.value) == ast.unparse(n.targets[0].value))
+            seen[attr] = seen.get(attr, True) and good
+    out.append(("scan/api_translates_every_path/get_info.elementwise", seen == dict(inp=True, out=True, vol=True),
+                f"inp / out / vol replaced by translate_back of each received path: {seen}"))
     src, node = extract.find_def("stepup/core/executor.py", "Executor._run_command")
     # the values stored under env["ROOT"] / env["HERE"], with locals that are assigned once written out
     once = {}
